@@ -45,7 +45,10 @@ def write_project(pr, g, top="all", extra=None):
         if s.get("fail"):
             L.append("exit 3")
         body = "cat " + " ".join(s["deps"]) + " 2>/dev/null; echo %s" % nm if s["deps"] else "echo %s" % nm
-        if s.get("stamp"):
+        if s.get("stamp") and s.get("stamp_early"):
+            # the checksum is recorded well before the script ends (redo-stamp commits its marks at once)
+            L.append("{ %s; } >\"$3\"; redo-stamp <\"$3\"; sleep %.3f" % (body, max(s["dur"], 80) / 1000.0))
+        elif s.get("stamp"):
             L.append("{ %s; } >\"$3\"; redo-stamp <\"$3\"" % body)
         else:
             L.append(body)
